@@ -36,6 +36,10 @@ class Polynomial(Vector):
         if (len(args) == 1 and len(keywords) == 0 and
             isinstance(args[0], Vector)):
 
+                # Only floating-point coefficients are allowed
+                if not args[0].is_float():
+                    args = (args[0].as_float(),)
+
                 for (key, value) in args[0].__dict__.items():
                     if key in ('_derivs_', '_cache_') or key.startswith('d_d'):
                         continue
